@@ -34,26 +34,11 @@ Proof.
 Qed.
 Print Assumptions c05_no_panic.
 
-(** single mode keeps the set empty in every reachable state, so c05_single applies *)
-Theorem c05_single_set_empty : forall rev ops s, run_ops (init rev false) ops = Some s ->
+(** single mode keeps the set empty in every reachable state (with or without a selector
+    configured: [k] is the selector, 0 = none), so c05_single applies *)
+Theorem c05_single_set_empty : forall rev k ops s, run_ops (init_sel rev false k) ops = Some s ->
   multi s = false /\ selected s = [].
-Proof.
-  intros rev ops s E.
-  assert (Hm : forall ops s0 s1, multi s0 = false -> run_ops s0 ops = Some s1 -> multi s1 = false).
-  { induction ops0 as [|o ops0 IH]; intros s0 s1 H0 E0; cbn [run_ops] in E0; [inversion E0; subst; exact H0|].
-    destruct (step s0 o) as [s2|] eqn:Es; [|discriminate]. apply (IH s2 s1); [|exact E0].
-    destruct (is_sel_action o) eqn:Ha.
-    - destruct o; cbn in Ha; try discriminate; cbn [step] in Es.
-      + destruct (single_mode_ignores s0 H0) as (T & _). rewrite T in Es. inversion Es; subst; exact H0.
-      + inversion Es; subst. destruct (single_mode_ignores s0 H0) as (_ & T & _). rewrite T. exact H0.
-      + inversion Es; subst. destruct (single_mode_ignores s0 H0) as (_ & _ & T). rewrite T. exact H0.
-      + inversion Es; subst. exact H0.
-      + inversion Es; subst. unfold act_select_raw_item. rewrite H0. exact H0.
-      + inversion Es; subst. unfold act_select_raw_item. rewrite H0. exact H0.
-    - destruct (other_ops_keep_selected s0 o s2 Ha Es) as [_ H2]. congruence. }
-  pose proof (Hm ops (init rev false) s eq_refl E) as M. split; [exact M|].
-  apply (run_SelInv ops _ _ (init_SelInv rev false) E). exact M.
-Qed.
+Proof. exact single_set_empty. Qed.
 Print Assumptions c05_single_set_empty.
 
 Example c05_example :
